@@ -149,6 +149,14 @@ def run(ctx):
                 if got != want:
                     ctx.spec_fail('use|selectlt-le-gt-ge|' + hl,
                                   'selectlt/le/gt/ge disagree with the ordering: got %s want %s' % (got, want), case)
+                # ties on the key must never fall back to comparing the rest of the rows natively
+                t3 = [['k', 'f'], [1, a], [1, b]]
+                out3 = [r[1] for r in list(etl.sort(t3, 'k', buffersize=1))[1:]]
+                if [repr(x) for x in out3] != [repr(a), repr(b)]:
+                    ctx.spec_fail('use|chunked-sort-ties|' + hl, 'sort spilled to chunk files reorders rows with equal keys', case)
+                out4 = [r[1] for r in list(etl.mergesort([['k', 'f'], [1, a]], [['k', 'f'], [1, b]], key='k'))[1:]]
+                if [repr(x) for x in out4] != [repr(a), repr(b)]:
+                    ctx.spec_fail('use|mergesort-ties|' + hl, 'mergesort reorders rows with equal keys', case)
                 jn = list(etl.join([['k', 'v'], [a, 0]], [['k', 'w'], [b, 1]], key='k'))
                 if (len(jn) == 2) != eq_ab:
                     ctx.spec_fail('use|join|' + hl, 'merge join matches keys differently from ==', case)
